@@ -374,3 +374,81 @@ def r_removed_excluded(ctx):
                           'a successful membership change performs %s but not %s' % (sorted(have), sorted(missing)), instance='membership effects complete')
     ctx.require(seen >= 2, 'add/remove arms returning True not found')
     ctx.expect_min(2)
+
+
+def dead_guards(P):
+    """[(class, attr, cond func, cond node)] attributes compared with None in a condition of their own class that no
+    statement of the class ever assigns a non-None value (the guard can never change its outcome)"""
+    out = []
+    for cname, ci in sorted(P.classes.items()):
+        if '@' in cname or ci.module.name in ('win_inet_pton', 'monotonic'):
+            continue
+        tested = {}
+        assigned_non_none = set()
+        wildcard = False
+        for m in P.methods_of(ci):
+            sn = m.self_name
+            if sn is None:
+                continue
+            for n in ast.walk(m.node):
+                if isinstance(n, ast.Compare) and len(n.ops) == 1 and isinstance(n.ops[0], (ast.Is, ast.IsNot)) and isinstance(n.comparators[0], ast.Constant) \
+                        and n.comparators[0].value is None:
+                    a = P.self_attr(n.left, sn)
+                    if a is not None and a.startswith('__'):
+                        tested.setdefault(a, (m, n))
+            for acc in P.accesses(m, include_nested=True):
+                if acc.kind == 'wildcard':
+                    wildcard = True
+                if acc.kind in ('write', 'aug') and isinstance(acc.node, (ast.Assign, ast.AugAssign)):
+                    v = acc.node.value
+                    if not (isinstance(v, ast.Constant) and v.value is None) or isinstance(acc.node, ast.AugAssign):
+                        assigned_non_none.add(acc.attr)
+                if acc.kind == 'write' and isinstance(acc.node, ast.For):
+                    assigned_non_none.add(acc.attr)
+                if acc.kind == 'write' and not isinstance(acc.node, (ast.Assign, ast.AugAssign)):
+                    assigned_non_none.add(acc.attr)
+        immune = None
+        if wildcard:
+            # attributes may be restored through self.__dict__[k] = v -- except those recorded as infrastructure
+            # (created in __init__ before the attribute names are snapshotted), which never enter a dump
+            init = ci.methods.get('__init__')
+            snap = None
+            if init is not None:
+                for n_ in ast.walk(init.node):
+                    if isinstance(n_, ast.For) and isinstance(n_.iter, ast.Attribute) and n_.iter.attr == '__dict__':
+                        snap = n_
+            if snap is None:
+                continue
+            immune = set(acc.attr for acc in P.accesses(init, include_nested=False) if acc.kind == 'write' and getattr(acc.node, 'lineno', 10 ** 9) < snap.lineno)
+        for a, (m, n) in sorted(tested.items()):
+            if immune is not None and a not in immune:
+                continue
+            if a not in assigned_non_none:
+                out.append((ci, a, m, n))
+    return out
+
+
+@rule('L-dead-guard', 'package-wide lint (thorough): no private attribute is tested against None while every assignment of it '
+                      'in its class assigns None (a guard that can never refuse, the shape of the membership-gate defect)')
+def l_dead_guard(ctx):
+    import os
+    from ..pyir import Program
+    P = ctx.P
+    found = dead_guards(P)
+    n_classes = len([c for c in P.classes if '@' not in c])
+    ctx.tick(n_classes)
+    for ci, a, m, n in found:
+        ctx.violation('%s:dead-none-guard-%s' % (ci.name, a), m.loc(n), 'self.%s is compared with None in %s but is only ever assigned None in class %s' % (a, m.qualname, ci.name),
+                      instance='%s.%s' % (ci.name, a))
+    if not found:
+        ctx.ok('no dead None-guards in %d classes' % n_classes, '', '')
+    # the matcher must still match its positive fixture
+    fx = os.path.join(os.path.dirname(os.path.dirname(os.path.dirname(os.path.abspath(__file__)))), 'fixtures', 'deadguard')
+    fp = Program(fx)
+    hits = [(ci.name, a) for ci, a, m, n in dead_guards(fp)]
+    ctx.tick()
+    if hits == [('Gate', '__pending')]:
+        ctx.ok('fixture: Gate.__pending recognised as a dead guard, Gate.__live not', 'fixtures/deadguard/pysyncobj/sample.py', '', nontrivial=True)
+    else:
+        raise AnalysisError('L-dead-guard no longer recognises its positive fixture (got %s)' % hits)
+    ctx.expect_min(2)
